@@ -12,6 +12,7 @@ from vlib import *
 from modcorpus import *
 from concurrent.futures import ThreadPoolExecutor
 import c02 as C02
+import ext_layer            # extensibility layer (lib/ext_layer.py, notes/design/EXT.md)
 
 SYNS = ["der", "cper", "coer", "xer", "cxer"]
 TIMES = {}
@@ -40,9 +41,6 @@ def classify_rt(run, m, tn, line, out, typetext, tainted):
             continue
         if syn == "coer" and st == "CMP" and tainted.get("wide_fixed_int"):
             run.known_finding("C01-wide-integer-compare", line)
-            continue
-        if syn == "cper" and st.startswith("ENCFAIL") and tainted.get("choiceref"):
-            run.known_finding("C01-choice-ref-no-per", line)
             continue
         if syn == "cper" and st.startswith("ENCFAIL") and tainted.get("semi_lb"):
             run.known_finding("C01-uper-semiconstrained-lb", line)
@@ -221,8 +219,7 @@ def main(tier):
         for c, l, o in zip(cs, lines, out):
             run.case(l)
             tree = m["trees"][c["tn"]]
-            tainted = {"choiceref": C02.ref_to_choice(m, c["tn"]) or C02.uses_choice_ref(m, dict(m["defs"])[c["tn"]]),
-                       "semi_lb": has_semi_lb(tree), "wide_fixed_int": wide_fixed_int(tree)}
+            tainted = {"semi_lb": has_semi_lb(tree), "wide_fixed_int": wide_fixed_int(tree)}
             classify_rt(run, m, c["tn"], l, o, "", tainted)
         # (b) the C decoders on the model's bytes vs the model's decoders
         lines, meta = [], []
@@ -245,9 +242,6 @@ def main(tier):
             mf = mo.split()
             model_ok = (mf[0] == "OK" and int(mf[1]) == len(c[key]) // 2 and mf[2] == c["vs"])
             if not (o.startswith(exp)):
-                if s == "uper" and (C02.ref_to_choice(m, c["tn"]) or C02.uses_choice_ref(m, dict(m["defs"])[c["tn"]])):
-                    run.known_finding("C01-choice-ref-no-per", l)
-                    continue
                 run.violation("correspondence:Rt.%s_dec" % s,
                               {"what": "C decoder on the model's encoding: wrong code, consumed count or value", "module": m["text"],
                                "type": c["tn"], "model_type": c["ts"], "value": c["vs"], "command_line": l, "c": o, "expected_prefix": exp, "model": mo})
@@ -275,8 +269,8 @@ def main(tier):
             run.count("chain")
             if o.startswith("OK "):
                 l3.append(("xcode %s %s %s der" % (c["tn"], b, o.split()[1]), c, a, b, l))
-            elif o.startswith("ENCFAIL") and b in ("cper",) and (C02.ref_to_choice(m, c["tn"]) or C02.uses_choice_ref(m, dict(m["defs"])[c["tn"]]) or has_semi_lb(m["trees"][c["tn"]])):
-                run.known_finding("C01-choice-ref-no-per" if not has_semi_lb(m["trees"][c["tn"]]) else "C01-uper-semiconstrained-lb", l)
+            elif o.startswith("ENCFAIL") and b in ("cper",) and has_semi_lb(m["trees"][c["tn"]]):
+                run.known_finding("C01-uper-semiconstrained-lb", l)
             else:
                 run.violation("oracle:transcode", {"what": "transcoding %s -> %s failed: %s" % (a, b, o), "module": m["text"], "type": c["tn"],
                                                    "value": c["vs"], "command_line": l, "c": o})
@@ -291,6 +285,7 @@ def main(tier):
     t0 = time.time()
     wide_layer(run, wmods, wrng if wmods else rng, tier)
     TIMES["wide_run_s"] = round(time.time() - t0, 1)
+    ext_layer.run_c01(run, rng, tier)
     tb = ["Coq 8.16.1 kernel; vm_compute for the Example", "axioms under Print Assumptions: " + (", ".join(sorted(axioms)) or "none (Closed under the global context)"),
           "extraction: ExtrOcamlBasic only; OCaml 4.13.1", "lib/modgen.py (generator, independent X.680 tagging), lib/widefind.py (wide generator, classifier predicates of the known findings), harness/moddrv.c + harness/moddrv_wide.inc (the rt/wrt battery is the property evaluated in C; deep constraint walk; value-level facts), gcc + ASan/UBSan",
           "values of the wide layer come from the library's own asn_random_fill"]
